@@ -5,7 +5,8 @@ with `supports_retrieve_callback` (threading, loky, multiprocessing, and the har
 Granularity: the caller's code runs between *hook points*; at a hook point the schedule delivers completions of
 parked batches, each completion callback (`BatchCompletionCallBack.__call__`, incl. `_dispatch_new` /
 `dispatch_next`) running to completion.  Hook points are `backend.configure`, `backend.compute_batch_size`
-(caller only), the retrieval loop's `time.sleep`, and consumer pauses.  This is exactly what harness/ctl.py executes
+(caller only), the retrieval loop's `time.sleep`, consumer pauses, `backend.abort_everything` (inside `_abort`, after
+`_aborting` is set), and the moments between two calls / after the last call on the object.  This is exactly what harness/ctl.py executes
 on the real code, so the correspondence is event-for-event.  (Interleavings *inside* a callback or between two
 bytecodes of the caller are finer than this model: see DESIGN "M1 granularity".)
 
@@ -292,11 +293,13 @@ def start (c : Cfg) (fuel : Nat) (s : St) : St :=
   if s.hung then s else
   if c.pdMode == 1 then { s with iterating := false } else s
 
-/-- `Parallel._abort`. -/
+/-- `Parallel._abort`. `backend.abort_everything` is a hook point: batches still in flight may complete while the
+backend is being told to cancel them (their callbacks find `_aborting` already set). -/
 def abort (c : Cfg) (s : St) : St :=
   let s := { s with aborting := true }
   let s := if !s.aborted then
       let s := ev s ("abort " ++ (if s.managed then "1" else "0"))
+      let s := hook c false s
       if c.abortDrops then { s with parked := [] } else s
     else s
   { s with aborted := true }
@@ -525,7 +528,14 @@ def recall (c : Cfg) (fuel : Nat) (s : St) : St :=
     | (s, _, _, .raise e) => ev s ("recall-raise " ++ excStr e)
     | (s, _, _, _) => s
 
-/-- The consumer of a generator-mode call: ops, then `next` until exhaustion. -/
+/-- `Parallel.__exit__` (leaving the `with` block). -/
+def exitBlock (c : Cfg) (s : St) : St :=
+  let s := { s with managed := false }
+  let s := if isGen c && s.calling then abort c s else s
+  ev (terminateAndReset s) "exit"
+
+/-- The consumer of a generator-mode call: ops, then `next` until exhaustion. Op 6: the consumer leaves the `with`
+block while the generator is alive (`managed` doubles as "the block has not been left yet"). -/
 def consume (c : Cfg) : Nat → Nat → St → Gen → List Nat → St
   | 0, _, s, _, _ => ev s "fuel!"
   | n + 1, fuel, s, g, ops =>
@@ -542,6 +552,7 @@ def consume (c : Cfg) : Nat → Nat → St → Gen → List Nat → St
     else if op == 2 then ev (genClose c s g).1 "closed"
     else if op == 3 then ev (genClose c s g).1 "dropped"
     else if op == 4 then consume c n fuel (recall c fuel s) g ops
+    else if op == 6 then consume c n fuel (if s.managed then exitBlock c s else s) g ops
     else consume c n fuel (hook c false s) g ops
 
 def runCallGen (c : Cfg) (fuel : Nat) (base : Nat) (spec : CallSpec) (s : St) : St :=
@@ -553,6 +564,8 @@ def runCalls (c : Cfg) (fuel : Nat) : Nat → Nat → List CallSpec → St → S
   | _, _, [], s => s
   | k, base, spec :: rest, s =>
     if s.hung then s else
+    -- between two calls: completions of batches of earlier calls that are still parked may arrive (a hook point)
+    let s := if k ≥ 1 then hook c false s else s
     let s := ev s ("call " ++ toString k)
     let s := if isGen c then runCallGen c fuel base spec s else runCallList c fuel base spec s
     runCalls c fuel (k + 1) (base + spec.n) rest s
@@ -570,11 +583,10 @@ def runScenario (c : Cfg) (calls : List CallSpec) (sched : List (List Nat)) : Li
   let s := if c.managed0 then ev (hook c false (ev { s with managed := true, calling := false } "configure")) "enter" else s
   let s := runCalls c fuel 0 0 calls s
   let s := if s.hung then ev s "hang"
-    else if c.managed0 then
-      let s := { s with managed := false }
-      let s := if isGen c && s.calling then abort c s else s
-      ev (terminateAndReset s) "exit"
-    else s
+    else
+      -- after the last call: one more hook point for late completions, then `__exit__` unless op 6 already left
+      let s := hook c false s
+      if s.managed then exitBlock c s else s
   s.log.reverse
 
 end JoblibModel.ParallelProto
